@@ -58,6 +58,13 @@ func (l *Lexer) lexToSpaceTokenEat(currentChar rune) strings.Builder {
 	for {
 		char := l.reader.Read()
 
+		// end of input
+		if char == 0 {
+			l.reader.Unread()
+
+			return buf
+		}
+
 		if unicode.IsSpace(char) {
 			if char != '\n' {
 				l.IsSpace = true
@@ -182,7 +189,7 @@ func (l *Lexer) lexIdentifier(currentChar rune) {
 		}
 
 		if !isIdentifierChar(char) {
-			if strings.Contains(buf.String(), ":\"") && char != '\n' && char != '"' {
+			if strings.Contains(buf.String(), ":\"") && char != '\n' && char != '"' && char != 0 {
 				buf.WriteRune(char)
 				continue
 			}
@@ -209,12 +216,17 @@ func (l *Lexer) lexString(start rune) {
 	for {
 		char := l.reader.Read()
 
-		if char == start {
+		// unterminated literal: end of input closes it
+		if char == start || char == 0 {
 			break
 		}
 
 		if char == '\\' {
 			char = l.reader.Read()
+
+			if char == 0 {
+				break
+			}
 		}
 
 		buf.WriteRune(char)
@@ -249,7 +261,8 @@ func (l *Lexer) skipLineComment() {
 	for {
 		char = l.reader.Read()
 
-		if char == '\n' {
+		// a comment on the last line may end without a newline
+		if char == '\n' || char == 0 {
 			break
 		}
 
